@@ -145,6 +145,12 @@ func run(r *vc.Run) int {
 	for _, o := range p.CensusObligations(r.Prop) {
 		r.Static = append(r.Static, o)
 	}
+	for _, o := range p.InitCallObligations(r.Prop) {
+		r.Static = append(r.Static, o)
+	}
+	for _, o := range p.StaticObligations(r.Prop) {
+		r.Static = append(r.Static, o)
+	}
 	need2 := r.Tier == "thorough"
 	sem := make(chan struct{}, 6)
 	var wg sync.WaitGroup
